@@ -14,11 +14,12 @@ import Proofs.Lemmas.ClientTheorems
 namespace C02
 open Client Client.Spec
 
-/-- #4: Q2 A(1), Q1 B(2), Q1 C(3); PUBACK 2; D parks on 1; PUBREC 1; PUBCOMP 1 sends D unrecorded -/
+/-- Q2 A(1), Q1 B(2), Q1 C(3); PUBACK 2; D parks on 1; PUBREC 1 (D stays parked: the release of 1
+    is pending); PUBCOMP 1 stores D and puts it on the wire (formerly #4: D went out unrecorded) -/
 def run4 : List LOp :=
   [.user (.publish 2 1), .user (.publish 1 2), .user (.publish 1 3), .inc (.puback 2 0), .user (.publish 1 4),
    .inc (.pubrec 1 0), .inc (.pubcomp 1 0)]
-/-- #13 (v5): A(1), B(2); PUBACK 2; C parks on 1; unsolicited PUBCOMP 1 → Err, C gone -/
+/-- v5: A(1), B(2); PUBACK 2; C parks on 1; unsolicited PUBCOMP 1 → Err, C still parked (formerly #13: C gone) -/
 def run13 : List LOp :=
   [.user (.publish 1 1), .user (.publish 1 2), .inc (.puback 2 0), .user (.publish 1 3), .inc (.pubcomp 1 0)]
 /-- failure in the middle of a QoS 2 flow and of a collision, replay interleaved with acks -/
@@ -28,49 +29,46 @@ def runOk : List LOp :=
 
 /-- C02.1 no_loss_state: every accepted QoS 1/2 publish whose acknowledgement has not arrived is
     held (in `clean()` of a clone, the collision slot or `pending`), at every moment, whatever the
-    order of the broker's packets and wherever the connection fails — along runs without #17 and
-    without a PUBCOMP on the id of a parked publish (#4, #13) -/
+    order of the broker's packets and wherever and however often the connection fails — along runs
+    without #17 (MQTT 5: a CONNACK lowering the limit under what is in use) -/
 theorem no_loss_state_partial (ver : Version) (max : Nat) (m : Bool) (h1 : 1 ≤ max) (h2 : max ≤ u16Max) (ops : List LOp)
-    (hn : Avoids c02Trigger (LState.new ver max m) ops) :
+    (hn : Avoids unsafeConnack (LState.new ver max m) ops) :
     Along (fun _ _ o _ g' => C02.noLoss g' o = true) (LState.new ver max m) (Ghost.init ver max m) ops := by
-  apply along_of_inv' B1 (fun l op => ¬ c02Trigger l op) B1.step _ _ _ _ _ (B1.new ver max m h1 h2) hn.not_not
+  apply along_of_inv' B1 (fun l op => ¬ unsafeConnack l op) B1.step _ _ _ _ _ (B1.new ver max m h1 h2) hn.not_not
   intro l g op o _ _ _ hi'
   exact C02_noLoss_ok hi' o (step_fields g o).1.symm (step_fields g o).2.1.symm
 
-/-- v4: the only trigger is #4 -/
-theorem no_loss_state_v4_partial (max : Nat) (m : Bool) (h1 : 1 ≤ max) (h2 : max ≤ u16Max) (ops : List LOp)
-    (hn : Avoids pubcompOnCollision (LState.new .v4 max m) ops) :
+/-- MQTT 3.1.1: full strength -/
+theorem no_loss_state_v4 (max : Nat) (m : Bool) (h1 : 1 ≤ max) (h2 : max ≤ u16Max) (ops : List LOp) :
     Along (fun _ _ o _ g' => C02.noLoss g' o = true) (LState.new .v4 max m) (Ghost.init .v4 max m) ops :=
-  no_loss_state_partial .v4 max m h1 h2 ops (Spec.Avoids.mk_or (avoids_unsafe_v4 _ rfl ops) hn)
+  no_loss_state_partial .v4 max m h1 h2 ops (avoids_unsafe_v4 _ rfl ops)
 
-/-- the full clause is false (#4, v4): D was accepted, is unacknowledged, and is nowhere -/
-theorem no_loss_state_fails_v4 :
-    ¬ Along (fun _ _ o _ g' => C02.noLoss g' o = true) (LState.new .v4 3 false) (Ghost.init .v4 3 false) run4 := by
-  rw [along_iff_alongB (fun _ o g' => C02.noLoss g' o)]; decide
+/-- C02.1b release obligation (v4 full strength): an id whose PUBREL is on the wire and whose
+    PUBCOMP has not arrived is in `outgoing_rel` (so `clean()` returns its `PubRel`); across failures
+    the obligation is carried by `pending` (ghost `pending` = loop `pending`, part of the coupling) -/
+theorem release_held_v4 (max : Nat) (m : Bool) (h1 : 1 ≤ max) (h2 : max ≤ u16Max) (ops : List LOp) :
+    Along (fun _ _ o _ g' => C02.relHeld g' o = true) (LState.new .v4 max m) (Ghost.init .v4 max m) ops := by
+  apply along_of_inv' B1 (fun l op => ¬ unsafeConnack l op) B1.step _ _ _ _ _ (B1.new .v4 max m h1 h2)
+    (avoids_unsafe_v4 _ rfl ops).not_not
+  intro l g op o _ _ _ hi'
+  exact C02_relHeld_ok hi' o (step_fields g o).1.symm
 
-/-- … and (#13, v5): an unsolicited PUBCOMP takes the parked publish away -/
-theorem no_loss_state_fails_v5 :
-    ¬ Along (fun _ _ o _ g' => C02.noLoss g' o = true) (LState.new .v5 2 false) (Ghost.init .v5 2 false) run13 := by
-  rw [along_iff_alongB (fun _ o g' => C02.noLoss g' o)]; decide
-
-/-- C02.1b release obligation: an id whose PUBREL is on the wire and whose PUBCOMP has not arrived
-    is in `outgoing_rel` (so `clean()` returns its `PubRel`); across failures the obligation is
-    carried by `pending` (ghost `pending` = loop `pending`, part of the coupling). Along runs without #17. -/
+/-- … both versions: along runs without #17 -/
 theorem release_held_partial (ver : Version) (max : Nat) (m : Bool) (h1 : 1 ≤ max) (h2 : max ≤ u16Max) (ops : List LOp)
     (hn : Avoids unsafeConnack (LState.new ver max m) ops) :
     Along (fun _ _ o _ g' => C02.relHeld g' o = true) (LState.new ver max m) (Ghost.init ver max m) ops := by
-  apply along_of_inv' B0 (fun l op => ¬ unsafeConnack l op) B0.step _ _ _ _ _ (B0.new ver max m h1 h2) hn.not_not
+  apply along_of_inv' B1 (fun l op => ¬ unsafeConnack l op) B1.step _ _ _ _ _ (B1.new ver max m h1 h2) hn.not_not
   intro l g op o _ _ _ hi'
   exact C02_relHeld_ok hi' o (step_fields g o).1.symm
 
 /-- C02.2 clean_moves_everything: `clean()` returns exactly what a clone's `clean()` showed before
-    (publishes with id and content, pending releases), leaves empty tables and `inflight = 0`.
-    Along runs without #17. (The parked publish stays in the collision slot — still held; whether
-    it can ever leave it again is C07 clause 5, finding #12.) -/
+    (publishes with id and content, pending releases, and — unnumbered, last — the publish that was
+    parked on a collision), leaves empty tables, an empty collision slot and `inflight = 0`.
+    Along runs without #17. -/
 theorem clean_moves_everything_partial (ver : Version) (max : Nat) (m : Bool) (h1 : 1 ≤ max) (h2 : max ≤ u16Max)
     (ops : List LOp) (hn : Avoids unsafeConnack (LState.new ver max m) ops) :
     Along (fun _ g o _ _ => C02.cleanExact g o = true) (LState.new ver max m) (Ghost.init ver max m) ops := by
-  apply along_of_inv' B0 (fun l op => ¬ unsafeConnack l op) B0.step _ _ _ _ _ (B0.new ver max m h1 h2) hn.not_not
+  apply along_of_inv' B1 (fun l op => ¬ unsafeConnack l op) B1.step _ _ _ _ _ (B1.new ver max m h1 h2) hn.not_not
   intro l g op o hi _ ho _
   exact C02_cleanExact_ok hi op o ho
 
@@ -79,27 +77,42 @@ theorem clean_moves_everything_v4 (max : Nat) (m : Bool) (h1 : 1 ≤ max) (h2 : 
     Along (fun _ g o _ _ => C02.cleanExact g o = true) (LState.new .v4 max m) (Ghost.init .v4 max m) ops :=
   clean_moves_everything_partial .v4 max m h1 h2 ops (avoids_unsafe_v4 _ rfl ops)
 
-/-- C02.2b nothing held is dropped by a failure: what was held before `EventLoop::clean` is held after -/
-theorem fail_keeps_held (s : State) (pd : List Request) (t : Nat) (h : Held ⟨s, pd⟩ t) :
-    Held ⟨cleanState s, pd ++ cleanRequests s⟩ t := h.fail
+/-- C02.2b (full strength, every state that satisfies the structural invariant) nothing held is
+    dropped by a failure: what was held before `EventLoop::clean` — stored, parked or pending — is
+    held after -/
+theorem fail_keeps_held (s : State) (hs : SInv s) (pd : List Request) (t : Nat) (h : Held ⟨s, pd⟩ t) :
+    Held ⟨cleanState s, cleanRequests s ++ pd⟩ t := h.fail hs
 
-/-- `loopClean` is `pending ++ state.clean() ++ channel` minus the `PubAck` requests (PubRec kept) -/
-theorem loopClean_spec (s : State) (pd ch : List Request) (h : cleanPanics s = false) :
-    loopClean s pd ch = some (cleanState s, pd ++ cleanRequests s ++ ch.filter keepOnClean) := by
-  simp [loopClean, clean, h]
+/-- C02.2c (full strength) `clean()` leaves nothing behind: a second `clean()` returns nothing -/
+theorem clean_leaves_nothing (s : State) (hs : SInv s) : cleanRequests (cleanState s) = [] ∧ (cleanState s).collision = none :=
+  ⟨cleanState_clean hs, rfl⟩
 
-/-- the executable monitor `C02.check` accepts every model trace that avoids #17 and #4/#13 -/
+/-- `loopClean` is `state.clean() ++ pending ++ channel` minus the `PubAck` requests (PubRec kept) -/
+theorem loopClean_spec (s : State) (pd ch : List Request) :
+    loopClean s pd ch = some (cleanState s, cleanRequests s ++ pd ++ ch.filter keepOnClean) := by
+  simp [loopClean, clean, cleanPanics]
+
+/-- the executable monitor `C02.check` accepts every model trace that avoids #17 -/
 theorem monitor_passes_partial (ver : Version) (max : Nat) (m : Bool) (h1 : 1 ≤ max) (h2 : max ≤ u16Max) (ops : List LOp)
-    (hn : Avoids c02Trigger (LState.new ver max m) ops) :
+    (hn : Avoids unsafeConnack (LState.new ver max m) ops) :
     C02.check (Ghost.init ver max m) (ltrace (LState.new ver max m) ops) = .ok :=
   runChecks_ok _ _ _ _ _ _ (c02_checks_along ver max m h1 h2 ops hn)
 
+/-- MQTT 3.1.1: every trace (full strength) -/
+theorem monitor_passes_v4 (max : Nat) (m : Bool) (h1 : 1 ≤ max) (h2 : max ≤ u16Max) (ops : List LOp) :
+    C02.check (Ghost.init .v4 max m) (ltrace (LState.new .v4 max m) ops) = .ok :=
+  monitor_passes_partial .v4 max m h1 h2 ops (avoids_unsafe_v4 _ rfl ops)
+
+/-! regression examples: the runs on which the clause used to fail -/
+example : C02.check (Ghost.init .v4 3 false) (ltrace (LState.new .v4 3 false) run4) = .ok := by decide
+example : C02.check (Ghost.init .v5 2 false) (ltrace (LState.new .v5 2 false) run13) = .ok := by decide
+example : (lrun (LState.new .v4 3 false) run4).st.outgoingPub[1]? = some (some ⟨1, 1, 4, none⟩) := by decide
+example : (lrun (LState.new .v5 2 false) run13).st.collision = some ⟨1, 1, 3, none⟩ := by decide
+
 /-! non-vacuity -/
-example : Avoids c02Trigger (LState.new .v4 3 false) runOk := by decide
-example : Avoids c02Trigger (LState.new .v5 3 false) runOk := by decide
+example : Avoids unsafeConnack (LState.new .v5 3 false) runOk := by decide
+example : Avoids unsafeConnack (LState.new .v5 2 false) run13 := by decide
 example : (lrun (LState.new .v4 3 false) (runOk.take 5)).pending.length = 3 := by decide
 example : (lrun (LState.new .v4 3 false) runOk).st.inflight = 0 := by decide
-example : ¬ Avoids pubcompOnCollision (LState.new .v4 3 false) run4 := by decide
-example : ¬ Avoids pubcompOnCollision (LState.new .v5 2 false) run13 := by decide
 
 end C02
